@@ -163,7 +163,7 @@ func enclosingRange(p *Prog, n ast.Node) *ast.RangeStmt {
 }
 
 func checkFECDecode(p *Prog, r *Report, fi *FuncInfo) {
-	recv := tVar(p.recvVar(fi))
+	recv := tVar(p.selfVar(fi))
 	al := aliasMap(p, fi)
 	c := p.CFG(fi)
 	fa := p.FactsOf(fi)
@@ -635,46 +635,13 @@ func checkFECDecode(p *Prog, r *Report, fi *FuncInfo) {
 			fmt.Sprintf("trigger is Len() >= dataShards: %v; independent of the packet type: %v — with exactly dataShards packets present (or when the last one to arrive is of one type) the missing packets are not reconstructed", okGE, okType))
 	}
 
-	// ---- F10: type by position, discard horizon
+	// ---- F10: type by position (the same obligations as C16.T1), discard horizon
 	{
-		ok := false
-		seqIn := tCall(p.Method("fecPacket", "seqid"), tVar(p.Info.Defs[fi.Decl.Type.Params.List[0].Names[0]]))
-		want := lt(mk("%", seqIn, shardSize), dataShards)
-		ast.Inspect(fi.Body, func(n ast.Node) bool {
-			is, isIf := n.(*ast.IfStmt)
-			if !isIf {
-				return true
-			}
-			if stripConvs(p.Term(is.Cond)).Key() == stripConvs(want).Key() && is.Else != nil {
-				// then-branch tests != typeData, else-branch != typeParity
-				thenT, elseT := int64(-1), int64(-1)
-				grab := func(b ast.Node) int64 {
-					v := int64(-1)
-					ast.Inspect(b, func(x ast.Node) bool {
-						if ii, isI := x.(*ast.IfStmt); isI {
-							t := p.Term(ii.Cond)
-							if t.Op == "!=" {
-								for _, a := range t.Args {
-									if a.IsConst() {
-										v = a.Int
-									}
-								}
-							}
-						}
-						return true
-					})
-					return v
-				}
-				thenT, elseT = grab(is.Body), grab(is.Else)
-				ok = thenT == p.ConstInt("typeData") && elseT == p.ConstInt("typeParity")
-			}
-			return true
-		})
-		r.check(ok, "C07.F10", fi.Name, p.Pos(fi.Node), "expected type by position", "seqid % shardSize < dataShards expects typeData, otherwise typeParity", "the position test that detects a changed FEC ratio does not match the slot index used for reconstruction")
+		checkTuneEvidence(p, r, "C07.F10")
 		// discard horizon
 		dfi := p.FuncOf(p.Method("fecDecoder", "discardShards"))
 		okD := false
-		drecv := tVar(p.recvVar(dfi))
+		drecv := tVar(p.selfVar(dfi))
 		ast.Inspect(dfi.Body, func(n ast.Node) bool {
 			is, isIf := n.(*ast.IfStmt)
 			if !isIf {
@@ -715,7 +682,7 @@ func enclosingLoop(p *Prog, n ast.Node) ast.Node {
 }
 
 func checkFECEncode(p *Prog, r *Report, fi *FuncInfo) {
-	recv := tVar(p.recvVar(fi))
+	recv := tVar(p.selfVar(fi))
 	c := p.CFG(fi)
 	al := aliasMap(p, fi)
 	b := tVar(p.Info.Defs[fi.Decl.Type.Params.List[0].Names[0]])
@@ -1090,6 +1057,44 @@ func checkFECSession(p *Prog, r *Report) {
 			}
 			ok := okForm
 			why := "the recovered packet is not cut as r[2:sz]"
+			if !okForm {
+				// the cut and its tests moved into a helper: payload, ok := h(r); if ok { Input(payload) }
+				if h, hargs, others := p.helperBoundArg(fi, s.Call.Args[0]); h != nil && len(hargs) == 1 && hargs[0].Key() == rv.Key() && len(others) == 1 {
+					guarded := false
+					for _, ct := range c.DominatingConds(pt) {
+						for _, a := range Conjuncts(ct) {
+							if a.Op == "var" && a.Obj == others[0] {
+								guarded = true
+							}
+						}
+					}
+					okH, whyH := p.recoveredCutHelper(h)
+					switch {
+					case !guarded:
+						ok, why = false, "the result of "+h.Name+" is used without testing its ok flag"
+					case !okH:
+						ok, why = false, whyH
+					default:
+						ok = true
+						// nothing else inside the loop may filter recovered packets
+						for _, ca := range c.DominatingCondsAt(pt) {
+							if !nodeWithin(p, lastNode(ca.B), rs.Body) {
+								continue
+							}
+							for _, a := range Conjuncts(ca.T) {
+								if a.Op == "var" && a.Obj == others[0] {
+									continue
+								}
+								if a.Contains(rv) || a.Contains(p.Term(s.Call.Args[0])) {
+									ok, why = false, "recovered packets are additionally filtered by "+pretty(a.Key())+", which genuine packets need not satisfy"
+								}
+							}
+						}
+					}
+					r.check(ok, "C07.F3", fi.Name, p.Pos(s.Call), "kcp.Input("+exprString(s.Call.Args[0])+", FEC)", "cut by "+h.Name+": r[2:sz] under len(r) >= 2, 2 <= sz <= len(r)", why+": a recovered packet is delivered with padding bytes, with the wrong length, or the slice expression panics on a forged size")
+					continue
+				}
+			}
 			if ok {
 				d := fs.Resolve(sz)
 				d = stripConvs(d)
@@ -1172,4 +1177,98 @@ func lastNode(b *cfg.Block) ast.Node {
 		return nil
 	}
 	return b.Nodes[len(b.Nodes)-1]
+}
+
+// recoveredCutHelper decides an extracted helper h(r) ([]byte, bool) path by path: every path that returns true
+// returns r[2:sz] with sz = Uint16(r), under len(r) >= 2, sz >= 2, sz <= len(r), and under nothing stronger
+// (a reconstructed shard is as long as the group's longest packet, so for that packet sz == len(r); lower
+// bounds up to a KCP header plus the prefix exclude nothing real); the other paths return false.
+func (p *Prog) recoveredCutHelper(h *FuncInfo) (bool, string) {
+	sps, understood := p.SymPaths(h)
+	if !understood || len(sps) == 0 {
+		return false, "the helper " + h.Name + " that cuts recovered packets is not a loop-free sequence of tests and returns"
+	}
+	var param *types.Var
+	if h.Decl != nil && len(h.Decl.Type.Params.List) == 1 && len(h.Decl.Type.Params.List[0].Names) == 1 {
+		param, _ = p.Info.Defs[h.Decl.Type.Params.List[0].Names[0]].(*types.Var)
+	}
+	if param == nil {
+		return false, "the helper " + h.Name + " does not take the recovered packet alone"
+	}
+	rv := tVar(param)
+	lenR := mk("len", rv)
+	maxLo := p.ConstInt("IKCP_OVERHEAD") + 2
+	accepts := 0
+	for _, sp := range sps {
+		if len(sp.Stores) > 0 {
+			return false, "the helper " + h.Name + " has side effects"
+		}
+		if len(sp.Ret) != 2 {
+			return false, "the helper " + h.Name + " does not return (payload, ok)"
+		}
+		switch sp.Ret[1].Op {
+		case "false":
+			continue
+		case "true":
+		default:
+			return false, "the ok result of " + h.Name + " is not a constant on each path"
+		}
+		accepts++
+		v := sp.Ret[0]
+		if !(v.Op == "slice" && v.Args[0].Key() == rv.Key() && v.Args[1] != nil && v.Args[1].IsConst() && v.Args[1].Int == 2 && v.Args[2] != nil) {
+			return false, "the recovered packet is not cut as r[2:sz] in " + h.Name
+		}
+		szR := stripConvs(v.Args[2])
+		if !(szR.Op == "call" && szR.Obj != nil && szR.Obj.Name() == "Uint16" && len(szR.Args) > 0 && szR.Args[len(szR.Args)-1].Key() == rv.Key()) {
+			return false, "the cut length in " + h.Name + " is not the size prefix Uint16(r)"
+		}
+		var atoms []*Term
+		for _, ct := range sp.Conds {
+			for _, a := range Conjuncts(ct) {
+				atoms = append(atoms, stripConvs(a))
+			}
+		}
+		okLo := pathImplies(atoms, le(tConst(2), szR))
+		okHi := pathImplies(atoms, le(szR, lenR))
+		okLen := pathImplies(atoms, le(tConst(2), lenR))
+		if !(okLo && okHi && okLen) {
+			return false, fmt.Sprintf("in %s: sz >= 2: %v; sz <= len(r): %v; len(r) >= 2: %v", h.Name, okLo, okHi, okLen)
+		}
+		for _, a := range atoms {
+			l, isCmp := leZero(a)
+			switch {
+			case isCmp && (l.Equal(mustLeZero(le(szR, lenR)))):
+			case isCmp && l.Equal(mustLeZero(lt(szR, lenR))):
+				return false, "the test is sz < len(r): the longest packet of every group (sz == len(r) after reconstruction) is refused and never reaches the core"
+			case isCmp && nonZeroCoefs(l) == 1 && (l.Coef[szR.Key()] == -1 || l.Coef[lenR.Key()] == -1):
+				// C - x <= 0: a constant lower bound C of sz or len(r)
+				if l.C > maxLo {
+					return false, fmt.Sprintf("recovered packets shorter than %d bytes are refused", l.C)
+				}
+			default:
+				if a.Contains(szR) || a.Contains(rv) {
+					return false, "recovered packets are additionally filtered by " + pretty(a.Key()) + ", which genuine packets need not satisfy"
+				}
+			}
+		}
+	}
+	if accepts == 0 {
+		return false, "the helper " + h.Name + " never accepts a recovered packet"
+	}
+	return true, ""
+}
+
+func mustLeZero(a *Term) *Linear {
+	l, _ := leZero(a)
+	return l
+}
+
+func nonZeroCoefs(l *Linear) int {
+	n := 0
+	for _, c := range l.Coef {
+		if c != 0 {
+			n++
+		}
+	}
+	return n
 }
